@@ -20,6 +20,7 @@ from ufl.classes import (
     Label,
     MultiIndex,
 )
+from ufl.core.base_form_operator import BaseFormOperator
 from ufl.core.ufl_type import UFLObject
 from ufl.corealg.traversal import traverse_unique_terminals, unique_post_traversal
 
@@ -93,7 +94,7 @@ def compute_terminal_hashdata(expressions, renumbering):
     return terminal_hashdata
 
 
-def compute_expression_hashdata(expression, terminal_hashdata) -> bytes:
+def compute_expression_hashdata(expression, terminal_hashdata, renumbering=None) -> bytes:
     """Compute expression hashdata."""
     cache: dict[UFLObject, bytes] = {}
 
@@ -108,6 +109,15 @@ def compute_expression_hashdata(expression, terminal_hashdata) -> bytes:
 
             for op in expr.ufl_operands:
                 data += [cache[op]]
+            if isinstance(expr, BaseFormOperator):
+                # Base form operators with equal operands differ in their
+                # derivative multi-index and function space
+                fs = expr.ufl_function_space()
+                if renumbering is not None and all(d in renumbering for d in fs.ufl_domains()):
+                    fsdata = fs._ufl_signature_data_(renumbering)
+                else:
+                    fsdata = repr(fs.ufl_element())
+                data += [type(expr).__name__, expr.derivatives, fsdata]
         cache[expr] = hashlib.sha512(str(data).encode("utf-8")).digest()
     return cache[expression]
 
@@ -120,7 +130,7 @@ def compute_expression_signature(expr, renumbering):  # FIXME: Fix callers
     terminal_hashdata = compute_terminal_hashdata([expr], renumbering)
 
     # Build hashdata for full expression
-    expression_hashdata = compute_expression_hashdata(expr, terminal_hashdata)
+    expression_hashdata = compute_expression_hashdata(expr, terminal_hashdata, renumbering)
 
     # Pass it through a seriously overkill hashing algorithm
     # (should we use sha1 instead?)
@@ -141,7 +151,9 @@ def compute_form_signature(form, renumbering):  # FIXME: Fix callers
     hashdata = []
     for integral in integrals:
         # Compute hash data for expression, this is the expensive part
-        integrand_hashdata = compute_expression_hashdata(integral.integrand(), terminal_hashdata)
+        integrand_hashdata = compute_expression_hashdata(
+            integral.integrand(), terminal_hashdata, renumbering
+        )
 
         domain_hashdata = integral.ufl_domain()._ufl_signature_data_(renumbering)
         # Note that integral.extra_domain_integral_type_map() has been sorted by domain.
